@@ -1,7 +1,8 @@
 /-
-  C08 — valid images (reference-encoder output and spec corner cases) are accepted.  (first instalment)
+  C08 — valid images (reference-encoder output and spec corner cases) are accepted.  
 -/
 import MediaSan.Vp8l.Lossless
+import MediaSan.Lemmas.KraftConv
 namespace MediaSan.Props.C08
 open MediaSan MediaSan.Vp8l MediaSan.Generated
 
@@ -63,6 +64,27 @@ theorem C08_transform_orders (seen : List TransformType) (ty : TransformType) :
   by_cases h : ty ∈ seen
   · simp [ensure, h]
   · simp [ensure, h]
+
+/-- every order of distinct transforms, on the transform loop of `LosslessImage::read` itself: a transform whose
+    type has not been seen passes the duplicate check and the loop goes on with the width it returns -/
+theorem C08_transform_loop_continues (cfg : LCfg) (height fuel width : Nat) (seen : List TransformType)
+    (b : ByteArray) (p p1 p2 : Nat) (ty : TransformType) (width' : Nat)
+    (hbit : readBit b p = .ok (true, p1)) (ht : readTransform cfg width height b p1 = .ok ((ty, width'), p2))
+    (hnew : ty ∉ seen) :
+    readTransforms cfg height (fuel + 1) width seen b p = readTransforms cfg height fuel width' (ty :: seen) b p2 := by
+  simp [readTransforms, hbit, ht, ensure, hnew]
+
+/-- the loop ends at the first 0 bit, with the current width -/
+theorem C08_transform_loop_ends (cfg : LCfg) (height fuel width : Nat) (seen : List TransformType)
+    (b : ByteArray) (p p1 : Nat) (hbit : readBit b p = .ok (false, p1)) :
+    readTransforms cfg height (fuel + 1) width seen b p = .ok (width, p1) := by
+  simp [readTransforms, hbit, pure, BR.pure]
+
+/-- a prefix code written according to the specification - ANY code-length vector whose used lengths satisfy Kraft's
+    equality - is accepted by the builder (the completeness half of C18, Lemmas/KraftConv.lean) -/
+theorem C08_complete_code_accepted (lens : List (Nat × Nat)) (H : Nat) (hH : ∀ x ∈ lens, x.2 ≤ H)
+    (hk : kraftW H lens = 2 ^ H) : ∃ c, newCode lens = .ok c :=
+  kraft_accepts lens H hH hk
 
 /-- maximal repeat runs: the code-length repeat codes reach exactly 6, 10 and 138 repetitions -/
 theorem C08_max_repeat_runs :
